@@ -12,7 +12,7 @@ macro_rules! check {
     };
 }
 
-const MODEL: usize = 12;
+const MODEL: usize = 15;
 
 fn make_vec(capsel: u8, init: &[u8; 3], len0: usize) -> Vec<u8> {
     // concrete capacities (a symbolic allocation size is far more expensive for CBMC than a 4-way choice)
@@ -123,10 +123,10 @@ fn agrees(v: &Vec<u8>, model: &[u8; MODEL], mlen: usize) -> bool {
 //@ inst: VecOutputTarget over a Vec<u8> of capacity 0..=3 holding 0..=capacity arbitrary bytes
 //@ inputs: capacity choice, initial bytes, arbitrary Reservation(a..b) with a, b in 0..=7 (invalid ones included), one arbitrary operation with k in 0..=3 and arbitrary data
 //@ oracle: append-only-log model: len grows by exactly k (0 for reserved writes), earlier bytes survive reallocation, reserved bytes read 0, reserved writes land front-to-back inside the reservation only, failed operations change nothing, remaining() == capacity - len
-//@ bound: unwind 14 (12-byte model compare); capacity <= 3, k <= 3; allocation failure outside the model
+//@ bound: unwind 17 (15-byte model compare); capacity <= 3, k <= 3; allocation failure outside the model
 //@ timeout: 1200
 #[kani::proof]
-#[kani::unwind(14)]
+#[kani::unwind(17)]
 fn k12_step_vec() {
     let capsel: u8 = kani::any();
     kani::assume(capsel <= 3);
@@ -167,10 +167,10 @@ fn k12_step_vec() {
 //@ inst: VecOutputTarget over a fresh Vec<u8> (capacity 0..=3, 0..=capacity initial bytes)
 //@ inputs: every history of 3 arbitrary operations (reserved writes go to the most recent reservation, initially an arbitrary one)
 //@ oracle: lock-step with the append-only-log model after every operation
-//@ bound: unwind 14; 3 operations; final length <= 12
+//@ bound: unwind 17; 3 operations; final length <= 12
 //@ timeout: 2400
 #[kani::proof]
-#[kani::unwind(14)]
+#[kani::unwind(17)]
 fn k12_hist_vec_3() {
     let capsel: u8 = kani::any();
     kani::assume(capsel <= 3);
@@ -201,5 +201,69 @@ fn k12_hist_vec_3() {
         }
     }
     kani::cover!(mlen == 12, "longest history reachable");
+    core::mem::forget(v);
+}
+
+//@ prop: C12
+//@ family: K12-hist-vec
+//@ tier: thorough
+//@ functions: as k12_step_vec, From<&mut Vec<u8>> for VecOutputTarget
+//@ inst: VecOutputTarget over a fresh, unallocated Vec<u8>
+//@ inputs: every history of 4 arbitrary operations (reserved writes go to the most recent reservation, initially an arbitrary one)
+//@ oracle: lock-step with the append-only-log model after every operation
+//@ bound: unwind 17; 4 operations; final length <= 12
+//@ timeout: 3400
+#[kani::proof]
+#[kani::unwind(17)]
+fn k12_hist_vec_fresh_4() {
+    let mut v: Vec<u8> = Vec::new();
+    let mut model = [0u8; MODEL];
+    let mut mlen = 0usize;
+    let a: usize = kani::any();
+    let b: usize = kani::any();
+    kani::assume(a <= 7 && b <= 7);
+    let mut res = Reservation(a..b);
+    {
+        let mut t = VecOutputTarget::from(&mut v);
+        let mut n = 0;
+        while n < 4 {
+            step(&mut t, &mut model, &mut mlen, &mut res);
+            check!(agrees(t.buffer, &model, mlen), "contents and length equal the append-only log after every operation");
+            n += 1;
+        }
+    }
+    kani::cover!(mlen == 12, "longest history reachable");
+    core::mem::forget(v);
+}
+
+//@ prop: C12
+//@ family: K12-hist-vec
+//@ tier: thorough
+//@ functions: as k12_step_vec, From<&mut Vec<u8>> for VecOutputTarget
+//@ inst: VecOutputTarget over a fresh, unallocated Vec<u8>
+//@ inputs: every history of 5 arbitrary operations (reserved writes go to the most recent reservation, initially an arbitrary one)
+//@ oracle: lock-step with the append-only-log model after every operation
+//@ bound: unwind 17; 5 operations; final length <= 15
+//@ timeout: 3400
+#[kani::proof]
+#[kani::unwind(17)]
+fn k12_hist_vec_fresh_5() {
+    let mut v: Vec<u8> = Vec::new();
+    let mut model = [0u8; MODEL];
+    let mut mlen = 0usize;
+    let a: usize = kani::any();
+    let b: usize = kani::any();
+    kani::assume(a <= 7 && b <= 7);
+    let mut res = Reservation(a..b);
+    {
+        let mut t = VecOutputTarget::from(&mut v);
+        let mut n = 0;
+        while n < 5 {
+            step(&mut t, &mut model, &mut mlen, &mut res);
+            check!(agrees(t.buffer, &model, mlen), "contents and length equal the append-only log after every operation");
+            n += 1;
+        }
+    }
+    kani::cover!(mlen == 15, "longest history reachable");
     core::mem::forget(v);
 }
